@@ -30,6 +30,20 @@ fn parse_probes(s: &str) -> Probes {
 fn main() {
     std::panic::set_hook(Box::new(|_| {}));
     let args: Vec<String> = std::env::args().collect();
+    if let Some(f) = arg(&args, "--decode-crash") {
+        let bytes = std::fs::read(&f).expect("read crash file");
+        match gcv::crash::decode(&bytes) {
+            Some((sig, scope, ops, probe)) => {
+                let j = J::obj().with("signal", sig as i64).with("scope", scope.as_str()).with("history", fmt_hist(&ops)).with("probe", probe.map(|p| J::Int(p as i64)).unwrap_or(J::Null));
+                println!("{}", j.dump());
+                std::process::exit(0)
+            }
+            None => std::process::exit(2),
+        }
+    }
+    if let Some(f) = arg(&args, "--crash-file") {
+        gcv::crash::install(&f);
+    }
     if let Some(f) = arg(&args, "--replay") {
         std::process::exit(replay(&f));
     }
